@@ -1997,6 +1997,9 @@ insert_list:
         if (!q.th || !cnt || !m_ooo_resume)
             return;
         SCOPED_LOCK(q.lock);
+        // the last waiters may have timed out (they leave the queue under q.lock
+        // only) since the check above
+        if (!q.th) return;
         auto lst = (thread_list*)&q;
         for (auto th = q.th->next(); th!= q.th && cnt; ) {
             auto next = th->next();     // th may be taken out of the list below
